@@ -16,6 +16,7 @@ import (
 	"testing"
 
 	"github.com/Dash-Industry-Forum/livesim2/pkg/logging"
+	"verif.local/vlib/ora"
 )
 
 var vfLogOnce sync.Once
@@ -89,3 +90,72 @@ func vfTrunc(b []byte, n int) string {
 	}
 	return string(b)
 }
+
+// ---- assets ----
+
+type vfAssetRef struct {
+	Path, MPD string
+	Gen       bool
+}
+
+var vfBundledAssets = []vfAssetRef{
+	{"testpic_2s", "Manifest.mpd", false},
+	{"testpic_2s", "Manifest_thumbs.mpd", false},
+	{"testpic_2s", "Manifest_imsc1.mpd", false},
+	{"testpic_6s", "Manifest.mpd", false},
+	{"testpic_8s", "Manifest.mpd", false},
+	{"testpic_alt_seg_dur_stl", "Manifest.mpd", false},
+	{"WAVE/vectors/cfhd_sets/12.5_25_50/t3/2022-10-17", "stream.mpd", false},
+	{"WAVE/vectors/cfhd_sets/14.985_29.97_59.94/t1/2022-10-17", "stream.mpd", false},
+	{"WAVE/vectors/cfhd_sets/14.985_29.97_59.94/t1/2022-10-17", "stream_w_beeps.mpd", false},
+	{"bbb_hevc_ac3_8s", "manifest.mpd", false},
+}
+
+var vfGenAssets = []vfAssetRef{
+	{"gen/irr1001", "gen.mpd", true}, {"gen/one", "gen.mpd", true}, {"gen/sub", "gen.mpd", true},
+	{"gen/alt12", "gen.mpd", true}, {"gen/numvar", "gen.mpd", true}, {"gen/s32", "gen.mpd", true},
+}
+
+// vfGenServer writes the generated layouts into a fresh temp vod root and starts a server on it.
+func vfGenServer(t testing.TB) (*Server, string) {
+	root := t.TempDir()
+	if err := ora.WriteStandardGenAssets(root, vfBundledVod()); err != nil {
+		t.Fatalf("generate assets: %v", err)
+	}
+	return vfNewServer(t, ServerConfig{VodRoot: root}), root
+}
+
+type vfWorld struct {
+	Srv   *Server
+	Root  string
+	Ref   vfAssetRef
+	Asset *ora.Asset
+}
+
+// vfWorlds loads the truth tables of all bundled and generated assets and the two servers that serve them.
+func vfWorlds(t testing.TB, keepData bool) []vfWorld {
+	bs := vfBundledServer(t)
+	gs, groot := vfGenServer(t)
+	var out []vfWorld
+	for _, ar := range append(append([]vfAssetRef{}, vfBundledAssets...), vfGenAssets...) {
+		w := vfWorld{Srv: bs, Root: vfBundledVod(), Ref: ar}
+		if ar.Gen {
+			w.Srv, w.Root = gs, groot
+		}
+		a, err := ora.LoadAsset(w.Root, ar.Path, ar.MPD, keepData)
+		if err != nil {
+			t.Fatalf("oracle cannot load %s/%s: %v", ar.Path, ar.MPD, err)
+		}
+		w.Asset = a
+		out = append(out, w)
+	}
+	return out
+}
+
+// vfMediaURL fills the VoD media template of a representation with a number or time value.
+func vfMediaURL(r *ora.Rep, v uint64) string {
+	s := strings.ReplaceAll(r.MediaTmpl, "$Number$", fmt.Sprint(v))
+	return strings.ReplaceAll(s, "$Time$", fmt.Sprint(v))
+}
+
+func readFile(p string) ([]byte, error) { return os.ReadFile(p) }
